@@ -22,6 +22,9 @@ type windowBuffer struct {
 	window        []byte
 	consumedBytes int
 	newlinesSeen  int
+	// bytes of the input consumed before the JSON decoder started: its error
+	// offsets count from there
+	skippedBytes int
 }
 
 func (c *windowBuffer) Write(p []byte) (int, error) {
@@ -41,16 +44,16 @@ func (c *windowBuffer) Write(p []byte) (int, error) {
 	return len(p), nil
 }
 
-func errorOffset(inputLength int, err error) (offset int, ok bool) {
+func errorOffset(inputLength, skipped int, err error) (offset int, ok bool) {
 	var (
 		syntaxErr *json.SyntaxError
 		typeErr   *json.UnmarshalTypeError
 	)
 	switch {
 	case errors.As(err, &syntaxErr):
-		return min(int(syntaxErr.Offset)-1, inputLength), true
+		return min(skipped+int(syntaxErr.Offset)-1, inputLength), true
 	case errors.As(err, &typeErr):
-		return min(int(typeErr.Offset)-1, inputLength), true
+		return min(skipped+int(typeErr.Offset)-1, inputLength), true
 	case errors.Is(err, io.ErrUnexpectedEOF), errors.Is(err, io.EOF):
 		return inputLength, true
 	default:
@@ -192,7 +195,7 @@ func drawMarker(window []byte, windowStart, markerPos, col int, msg string) stri
 }
 
 func prettyParseError(c *windowBuffer, err error) string {
-	absOffset, ok := errorOffset(c.consumedBytes, err)
+	absOffset, ok := errorOffset(c.consumedBytes, c.skippedBytes, err)
 	if !ok {
 		return err.Error()
 	}
